@@ -18,7 +18,11 @@ Binding: checks/c12_driver.py drives the REAL Scheme classes: every Scheme
          subclass found in the tree x every combination of its boolean /
          enumerated options (discovered from the constructor signature and
          add_user_options) and of the numeric options that toggle equations
-         x dim x with/without solids x clean; the abstraction (array name
+         x dim x with/without solids x clean x route (the scheme is
+         constructed with OTHER option values and the assignment applied by
+         scheme.configure before configure_solver - the documented protocol -
+         so that state derived from options at construction is stale unless
+         the scheme re-derives it); the abstraction (array name
          sets, explicit names and symbols of every equation from the real
          method signatures, stepper names) is validated by TLC
          (spec/TraceSchemes.tla), which computes the verdict of every
@@ -139,9 +143,38 @@ def option_combos(s, tier, rng):
     return out
 
 
+def other(vals, v):
+    """another value of the option (the next one of its axis)"""
+    return vals[(vals.index(v) + 1) % len(vals)]
+
+
+def ctor_opts(s, o, route, n):
+    """Construction-time values of the options for a route.  same: the
+    final assignment; flip: every option that is a constructor parameter
+    has another value; flip1: only one of them (the n-th) has."""
+    c = dict(o)
+    ks = [k for k in sorted(o) if k in s['ctor_options']
+          and len(s['axes'][k]) > 1]
+    if route == 'flip1' and ks:
+        ks = [ks[n % len(ks)]]
+    if route in ('flip', 'flip1'):
+        for k in ks:
+            c[k] = other(s['axes'][k], o[k])
+    return c
+
+
 def enumerate_cases(listing, tier, seed):
+    """Configurations x routes.  Every configuration is driven with the
+    `flip` route (constructed with other option values, then configured);
+    thorough adds, alternately, `same` or `flip1` for every configuration,
+    quick for every fourth one."""
     rng = random.Random(seed)
     cases = []
+
+    def add(s, n, **kw):
+        kw['ctor_opts'] = ctor_opts(s, kw['opts'], kw['route'], n)
+        cases.append(dict(cls=s['cls'], mode='gen', **kw))
+
     for s in listing['schemes']:
         combos = option_combos(s, tier, rng)
         solid_vals = [False, True] if s['solids'] else [False]
@@ -156,26 +189,28 @@ def enumerate_cases(listing, tier, seed):
                         j += 1
                         dims = [dims[(j + seed) % len(dims)]]
                     for dim in dims:
-                        if tier == 'thorough':
-                            cleans = [True, False]
-                        else:
-                            # quick: clean alternates, seed-rotated
-                            cleans = [(k + seed) % 2 == 0]
-                        k += 1
+                        alt = (k + seed) % 2 == 0
+                        cleans = [True, False] if tier == 'thorough' \
+                            else [alt]          # quick: clean alternates
                         for clean in cleans:
-                            cases.append(dict(
-                                cls=s['cls'], dim=dim, solids=solids,
-                                clean=clean, opts=o, integrator=integ,
-                                chooser=False, mode='gen'))
+                            add(s, k, dim=dim, solids=solids, clean=clean,
+                                opts=o, integrator=integ, chooser=False,
+                                route='flip')
+                        second = ['same', 'flip1'][((k + seed) // 4) % 2]
+                        if tier == 'thorough' or (k + seed) % 4 == 0:
+                            add(s, k // 4, dim=dim, solids=solids,
+                                clean=not alt, opts=o, integrator=integ,
+                                chooser=False, route=second)
+                        k += 1
         # every scheme once more through a SchemeChooser (defaults, and a
         # seed-chosen option assignment), for each dim / solids
-        picks = [dict(s['defaults']), combos[rng.randrange(len(combos))]]
-        for o in picks:
+        picks = [(dict(s['defaults']), 'same'),
+                 (combos[rng.randrange(len(combos))], 'flip')]
+        for o, route in picks:
             for solids in solid_vals:
                 for dim in s['dims']:
-                    cases.append(dict(
-                        cls=s['cls'], dim=dim, solids=solids, clean=True,
-                        opts=o, integrator=None, chooser=True, mode='gen'))
+                    add(s, 0, dim=dim, solids=solids, clean=True, opts=o,
+                        integrator=None, chooser=True, route=route)
     for i, c in enumerate(cases):
         c['id'] = case_id(c)
     # distinct ids
@@ -190,12 +225,16 @@ def enumerate_cases(listing, tier, seed):
 
 def case_id(c):
     o = ','.join('%s=%s' % (k, sval(c['opts'][k])) for k in sorted(c['opts']))
-    return '%s[%s]d%d%s%s%s%s' % (
+    r = c.get('route', 'same')
+    if r == 'flip1':
+        r += ':' + ','.join(k for k in sorted(c['opts'])
+                            if c['ctor_opts'][k] != c['opts'][k])
+    return '%s[%s]d%d%s%s%s%s/%s' % (
         c['cls'].split(':')[1], o, c['dim'],
         '+solid' if c['solids'] else '',
         '+clean' if c['clean'] else '',
         '+' + c['integrator'].split(':')[1] if c['integrator'] else '',
-        '+chooser' if c['chooser'] else '')
+        '+chooser' if c['chooser'] else '', r)
 
 
 def sval(v):
@@ -358,7 +397,8 @@ def selftest(chk, cases, known_ids):
     (remove a property from an array's name set) - the verdict must name
     the equation and the missing name."""
     pick = [c for c in cases if c['cls'].endswith('WCSPHScheme')
-            and c['dim'] == 2 and c['solids']][:1]
+            and c['dim'] == 2 and c['solids']
+            and not c['integrator']][:1]
     tr = drive(chk, pick, 'st', nproc=1)[0]
     tr['known_ids'] = known_ids
     a = json.loads(json.dumps(tr))
@@ -563,6 +603,8 @@ def check(chk):
         per_scheme=per_scheme,
         traces_validated_against_impl=len(verdicts) + len(rverdicts),
         evaluations=len(traces),
+        routes={r: sum(1 for c in cases if c.get('route', 'same') == r)
+                for r in ('flip', 'flip1', 'same')},
         configurations_code_generated=sum(1 for t in traces
                                           if t['gen']['ok']),
         configurations_compiled_and_run=len(rtraces),
@@ -575,14 +617,20 @@ def check(chk):
         distinct_nontrivial=len(keys),
         rule='a case is one configuration (scheme class, option assignment, '
              'dim, with/without a solid array, clean, integrator class, '
-             'through a SchemeChooser or not) driven through the real '
+             'through a SchemeChooser or not) and a route (flip: the scheme '
+             'is constructed with ANOTHER value of every option and the '
+             'assignment is applied by scheme.configure before '
+             'configure_solver; flip1: one option differs at construction; '
+             'same: constructed with the assignment) driven through the real '
              'configure / configure_solver / setup_properties / '
              'get_equations / get_solver and the real code generator; '
              'quick: every option assignment (enumerations of more than 3 '
              'values cycled when the product exceeds %d) x solids x dim '
              '(one seed-rotated dim per assignment for schemes with more '
-             'than %d assignments), clean alternating with the seed; '
-             'thorough: the complete product.  Counted distinct by the hash of the extracted '
+             'than %d assignments), clean alternating with the seed, route '
+             'flip for all and same / flip1 for every fourth; thorough: the '
+             'complete product with route flip and, alternately, same or '
+             'flip1.  Counted distinct by the hash of the extracted '
              'abstraction (array name sets, equations with names and '
              'symbols, steppers); non-trivial when set-up succeeded, there '
              'is at least one equation and at least one name is required '
